@@ -85,6 +85,7 @@ type Op struct {
 	XB   string `json:"xb,omitempty"`
 	XO   int64  `json:"xo,omitempty"`
 	N    int64  `json:"n,omitempty"`
+	Rep  int    `json:"rep,omitempty"` // add: repeat count (one sample per millisecond), for multi-page WAL records
 	Sel  []int  `json:"sel,omitempty"` // series indexes (compactsel)
 }
 
@@ -209,7 +210,7 @@ func profileWeights(prop string, c Config, r *prng.R) weights {
 		w.del, w.cleanTomb, w.compactStale, w.compactSel = 0, 0, 0, 0
 		w.compact, w.restart = 3, 2
 	case "C03":
-		w.compact, w.restart, w.del, w.cleanTomb = 8, 2, 4, 2
+		w.compact, w.restart, w.del, w.cleanTomb, w.tick = 8, 2, 4, 2, 4
 	case "C20":
 		w.del, w.cleanTomb, w.compact = 12, 5, 8
 	case "C09", "C07", "C08":
@@ -267,6 +268,13 @@ func Generate(prop, tier string, seed uint64) *Plan {
 			}
 			p.Ops = append(p.Ops, Op{K: "commit", Slot: slot})
 		case "commit":
+			if (prop == "C03" || prop == "C04") && r.Chance(0.15) {
+				// a big transaction: its WAL record spans several pages, so a kill can tear it
+				slot := r.Intn(3)
+				p.Ops = append(p.Ops, Op{K: "add", Slot: slot, S: r.Intn(cfg.NSeries), TB: "now", TO: 1, Rep: r.Range(150, 320)})
+				p.Ops = append(p.Ops, Op{K: "commit", Slot: slot})
+				break
+			}
 			p.Ops = append(p.Ops, Op{K: "commit", Slot: r.Intn(3)})
 		case "rollback":
 			p.Ops = append(p.Ops, Op{K: "rollback", Slot: r.Intn(3)})
@@ -282,6 +290,10 @@ func Generate(prop, tier string, seed uint64) *Plan {
 		case "setooo":
 			p.Ops = append(p.Ops, Op{K: k, N: []int64{0, 2, 30}[r.Intn(3)]})
 		case "tick":
+			if cfg.Crash && r.Chance(0.7) {
+				p.Ops = append(p.Ops, Op{K: "crashnext", N: int64(r.Intn(40))})
+				break
+			}
 			p.Ops = append(p.Ops, Op{K: k, N: int64(r.Range(1, 130))}) // seconds of simulated time
 		default:
 			p.Ops = append(p.Ops, Op{K: k})
